@@ -382,7 +382,9 @@ class World(object):
         # -- offers in statuses that forbid them
         if self.status in ("pausing", "paused") or st_before in ("pausing", "paused"):
             self.report("C09", "no_offer_while_paused", "task %s offered while workflow is %s" % (tid, st_before))
-        if L.cancel_requested:
+        if L.cancel_requested and not (st_before == "failed" and L.runtime_errors and (tid, route) in self.cleanup_entitled()):
+            # (a runtime expression error processed after the request legitimately turns the
+            # workflow failed, and the documented run-on-fail clean-up tasks may then be offered)
             self.report("C10", "no_offer_after_cancel", "task %s offered after cancellation was requested" % tid)
         if self.terminal_at_offer is not None and not self.accepted_rerun:
             if not (self.terminal_at_offer == "failed" and (tid, route) in self.cleanup_entitled()):
@@ -801,6 +803,7 @@ class World(object):
         if self.status != "resuming":
             self.report("C17", "resuming", "accepted rerun left the workflow %s" % self.status)
         self.accepted_rerun = True
+        self.rerun_from = wfb
         self.cancel_req = False
         self.pause_req = False
         self.ledger.cancel_requested = False
@@ -978,7 +981,8 @@ class World(object):
             else:
                 self.report("C09", "paused_when_drained", "workflow paused with %d action(s) in flight" % nin)
         if st in ("pausing", "canceling") and not nin:
-            self.report("C02", "ing_has_inflight", "workflow %s with no action in flight" % st)
+            kf, tags = self.kf_rerun_after_cancel()
+            self.report("C02", "ing_has_inflight", "workflow %s with no action in flight" % st, tags=tags, kf=kf)
             if st == "canceling":
                 self.report("C10", "canceled_when_drained", "workflow still canceling after the last action reported")
             else:
@@ -1020,7 +1024,7 @@ class World(object):
                             tags=tags, kf=kf)
         if st == "paused":
             tstat = [t.get("status") for t in self.snap["state"]["sequence"]]
-            cause = self.pause_req or bool(self.pending) or any(x in ("paused", "pending", "pausing") for x in tstat)
+            cause = self.pause_req or self.ever_paused or bool(self.pending) or any(x in ("paused", "pending", "pausing") for x in tstat)
             if not cause:
                 self.report("C03", "paused_has_cause", "workflow paused without a pause request or pending task")
         L = self.ledger
@@ -1030,7 +1034,22 @@ class World(object):
             if ub and not oc and st != "failed" and not self.cancel_req and st != "paused" and st != "succeeded":
                 pass
 
+    rerun_from = None
+
+    def kf_rerun_after_cancel(self):
+        """Precise signature: a canceled workflow was rerun and, without any new cancel request,
+        turns canceling/canceled again because the records of the originally canceled tasks are
+        still the latest ones of their tasks."""
+        if self.accepted_rerun and self.rerun_from == "canceled" and not self.cancel_req \
+                and self.status in ("canceling", "canceled") \
+                and any(t.get("status") == "canceled" for t in self.snap["state"]["sequence"]):
+            return "KF-rerun-after-cancel-recancels", ["rerun_after_cancel"]
+        return None, []
+
     def classify_stuck(self):
+        kf, tags = self.kf_rerun_after_cancel()
+        if kf:
+            return kf, tags
         if self.accepted_rerun and self.status in ("resuming", "running") and self.rerun_offers_since == 0 and not self.inflight:
             # precise signature: a rerun request was accepted although there is no execution to
             # re-run and nothing to continue; the workflow is left `resuming` with nothing to do
